@@ -81,6 +81,23 @@ def _kind(r, expect_status):
     return "wrong output"
 
 
+# A recorded defect is identified by its call site where one exists: a generated program that reaches the SAME site
+# (here: gcc's message for the closure environment that genc does not declare) is that defect, not a new one.
+SITE_KEYS = [
+    (re.compile(r"error: 'e0' undeclared \(first use in this function\)"), "C01 site:genc-closure-env-e0-undeclared"),
+]
+
+
+def _site_key(bad):
+    keys = set()
+    for r in bad:
+        hit = [k for rx, k in SITE_KEYS if rx.search(r.get("err", "") + r.get("out", ""))]
+        if not hit:
+            return None
+        keys.update(hit)
+    return keys.pop() if len(keys) == 1 else None
+
+
 def _signature(bad, expect_status=None):
     return "; ".join(sorted("%s: %s" % (r["route"], _kind(r, expect_status or "?")) for r in bad))
 
@@ -191,7 +208,8 @@ def run(rep, tier):
         if shrunk >= (3 if tier == "quick" else 8):
             rep.violation("generated programs (%d, e.g. seed %d size %d, not shrunk): %s; family %s"
                           % (len(members), p["seed"], p["size"], "+".join(routes), sig),
-                          dict(_replay_obj(p, bad, "./check C01 --replay <this file>"), family=sig, members=seeds))
+                          dict(_replay_obj(p, bad, "./check C01 --replay <this file>"), family=sig, members=seeds),
+                          key=_site_key(bad))
             continue
 
         def still_fails(q, routes=routes, sig=sig, st=p["expect_status"]):
@@ -220,7 +238,8 @@ def run(rep, tier):
         rep.violation("generated program (seed %d size %d, shrunk to %s nodes; %d program(s) of this family): "
                       "%s disagree(s) with the language definition; family %s"
                       % (p["seed"], p["size"], small.get("nodes"), len(members), "+".join(routes), sig),
-                      dict(_replay_obj(small, bad2, "./check C01 --replay <this file>"), family=sig, members=seeds))
+                      dict(_replay_obj(small, bad2, "./check C01 --replay <this file>"), family=sig, members=seeds),
+                      key=_site_key(bad2))
 
     # ---- 4. evidence
     fallback = sum(v for k, v in tries.items() if k > 5)
